@@ -381,6 +381,15 @@ func kindSelection(c *core.Ctx, R string, u *core.Unit, cl *core.Call, pkgOfCons
 		}
 	}
 	ok := deflt != nil && text != nil && len(as) == 2 && g.Dominates(deflt.Loc, cl.Loc)
+	if ok && g.CanFollow(cl.Loc, cl.Loc) {
+		// the selection sits in a loop: the Binary default must be re-established in every iteration, otherwise a Text
+		// choice made for one packet carries over to the next packets of the batch
+		stale := g.Reach(g.After(cl.Loc), func(s core.State) bool { return s.B == cl.Loc.B && s.I == cl.Loc.I },
+			func(s core.State) bool { return s.B == deflt.Loc.B && s.I == deflt.Loc.I }, nil)
+		if stale {
+			ok = false
+		}
+	}
 	if ok {
 		// text assignment guarded by ok of a type assertion to *StringBuffer
 		ok = g.GuardedBy(text.Loc, func(x *core.Unit, br core.Branch) int {
